@@ -58,7 +58,7 @@ def gen_cases(seed, tier):
     from .. import c04_gen as G
     G.configure(tier)
     rng = np.random.default_rng([seed, 4])
-    n = 420 if tier == "quick" else 9000
+    n = 420 if tier == "quick" else 24000
     names = [k for k, _ in KINDS]
     p = np.array([w for _, w in KINDS])
     p = p / p.sum()
